@@ -9,10 +9,10 @@ package syntax
 // ---------------------------------------------------------------------------------------------
 
 //@ spec func RangeHas(r SingleRange, ch rune) bool = r.First <= ch && ch <= r.Last
-//@ spec func InRanges(rs []SingleRange, ch rune) bool = exists i int :: 0 <= i && i < len(rs) && rs[i].First <= ch && ch <= rs[i].Last
+//@ spec func InRanges(rs []SingleRange, ch rune) bool = exists i int {mark(i)} {rs[i].First} :: 0 <= i && i < len(rs) && rs[i].First <= ch && ch <= rs[i].Last
 // ranges ordered and disjoint (what canonicalize establishes; needed by both lookup strategies)
 //@ spec func RangesSorted(rs []SingleRange) bool = (forall i int :: 0 <= i && i < len(rs) ==> rs[i].First <= rs[i].Last) &&
-//@     (forall i int, j int :: 0 <= i && i < j && j < len(rs) ==> rs[i].Last < rs[j].First)
+//@     (forall i int, j int {mark(i), mark(j)} {rs[i].Last, rs[j].First} :: 0 <= i && i < j && j < len(rs) ==> rs[i].Last < rs[j].First)
 
 // Category membership, abstracting the Unicode tables: CatHit(name, ch) is "ch belongs to the named category"
 // (unicode.IsSpace for the space pseudo-category, IsWordChar for the word pseudo-category, unicode.Is otherwise).
@@ -268,14 +268,40 @@ package syntax
 
 // canonicalize: same members, ranges sorted and separated, the parser's sense kept. The rewrites that introduce
 // negation record it in c.inverted.
+//@ spec func InPrefix(rs []SingleRange, n int, ch rune) bool = exists a int {mark(a)} {rs[a].First} :: 0 <= a && a < n && rs[a].First <= ch && ch <= rs[a].Last
+//@ spec func InSuffix(rs []SingleRange, i int, ch rune) bool = exists k int {mark(k)} {rs[k].First} :: i <= k && k < len(rs) && rs[k].First <= ch && ch <= rs[k].Last
+// ranges 0..n-1 are valid, ordered and separated by at least one rune
+//@ spec func PrefixSorted(rs []SingleRange, n int) bool = (forall a int {mark(a)} {rs[a].First} :: 0 <= a && a < n ==> 0 <= rs[a].First && rs[a].First <= rs[a].Last) &&
+//@     (forall a int, b int {mark(a), mark(b)} {rs[a].Last, rs[b].First} :: 0 <= a && a < b && b < n ==> rs[a].Last + 1 < rs[b].First)
+// every range before n ends more than one rune before f
+//@ spec func AllBefore(rs []SingleRange, n int, f rune) bool = forall a int {mark(a)} {rs[a].Last} :: 0 <= a && a < n ==> rs[a].Last + 1 < f
+// ranges i.. are valid and ordered by First, none starts before f
+//@ spec func SuffixByFirst(rs []SingleRange, i int, f rune) bool = (forall k int {mark(k)} {rs[k].First} :: i <= k && k < len(rs) ==> f <= rs[k].First && rs[k].First <= rs[k].Last) &&
+//@     (forall a int, b int {mark(a), mark(b)} {rs[a].First, rs[b].First} :: i <= a && a < b && b < len(rs) ==> rs[a].First <= rs[b].First)
+
 //@ func (c *CharSet) canonicalize()
 //@   props C16
-//@   trusted merge loop and rewrites not yet verified; contract used by the add* functions
 //@   requires c != nil && RangesValid(c.ranges) && CatsKnown(c.categories) && InvOK(*c)
-//@   modifies c.ranges, c.negate, c.inverted, c.anything, c.categories, elems(SingleRange)
+//@   modifies c.ranges, c.negate, c.inverted, c.anything, c.categories, c.ranges[*]
 //@   ensures[member] forall ch rune {mark(ch)} :: ValidRune(ch) ==> Member(*c, ch) == old(Member(*c, ch))
 //@   ensures[sorted] RangesSorted(c.ranges) && RangesValid(c.ranges) && CatsKnown(c.categories) && c.sub == old(c.sub) && InvOK(*c)
 //@   ensures[sense]  ParserNeg(*c) == old(ParserNeg(*c))
+//@   loop 0:
+//@     invariant c != nil && c.ranges == old(c.ranges) && len(c.ranges) > 1 && 0 <= j && j < i && i <= len(c.ranges) && !done
+//@     invariant[prefix] PrefixSorted(c.ranges, j + 1) 
+//@     invariant[suffix] SuffixByFirst(c.ranges, i, c.ranges[j].First) && mark(i) && mark(j)
+//@     invariant[member] forall ch rune {mark(ch)} :: ValidRune(ch) ==> old(InRanges(c.ranges, ch)) == (InPrefix(c.ranges, j + 1, ch) || InSuffix(c.ranges, i, ch))
+//@     invariant[rest]   c.negate == old(c.negate) && c.inverted == old(c.inverted) && c.anything == old(c.anything) && c.categories == old(c.categories) && c.sub == old(c.sub)
+//@     exit[merged] c != nil && c.ranges == old(c.ranges) && 1 <= j && j <= len(c.ranges) && PrefixSorted(c.ranges, j)
+//@     exit[member] forall ch rune {mark(ch)} :: ValidRune(ch) ==> old(InRanges(c.ranges, ch)) == InPrefix(c.ranges, j, ch)
+//@     exit[rest]   c.negate == old(c.negate) && c.inverted == old(c.inverted) && c.anything == old(c.anything) && c.categories == old(c.categories) && c.sub == old(c.sub)
+//@   loop 1:
+//@     invariant c != nil && c.ranges == old(c.ranges) && len(c.ranges) > 1 && 0 <= j && j < i && i <= len(c.ranges) && !done
+//@     invariant[prefix] PrefixSorted(c.ranges, j) && 0 <= c.ranges[j].First && c.ranges[j].First <= last && c.ranges[j].Last <= last && AllBefore(c.ranges, j, c.ranges[j].First)
+//@     invariant[suffix] SuffixByFirst(c.ranges, i, c.ranges[j].First) && mark(i) && mark(j)
+//@     invariant[member] forall ch rune {mark(ch)} :: ValidRune(ch) ==> old(InRanges(c.ranges, ch)) == (InPrefix(c.ranges, j, ch) || (c.ranges[j].First <= ch && ch <= last) || InSuffix(c.ranges, i, ch))
+//@     invariant[rest]   c.negate == old(c.negate) && c.inverted == old(c.inverted) && c.anything == old(c.anything) && c.categories == old(c.categories) && c.sub == old(c.sub)
+//@     decreases len(c.ranges) - i
 
 // restore: the positive form of an inverted class (same members); anything else is left alone
 //@ func (c *CharSet) restore()
